@@ -534,7 +534,78 @@ fn path_of<'a>(
     Some(p)
 }
 
+/// `logstore script`: run an operation list on a fresh store with a "DVMARK begin/end k" line on stderr
+/// around every call (for strace); `logstore load`: dump what a fresh store sees in each directory.
+fn script_or_load(args: &[String]) -> Option<i32> {
+    use std::io::Write;
+    let sub = args.get(2).map(|s| s.as_str()).unwrap_or("");
+    let engine = arg(args, "--engine").unwrap_or_else(|| "file".into());
+    match sub {
+        "script" => {
+            let dir = PathBuf::from(arg(args, "--dir").expect("--dir"));
+            let ops: Vec<Op> = serde_json::from_str(&arg(args, "--ops").expect("--ops")).expect("ops json");
+            let rt = tokio::runtime::Builder::new_current_thread().enable_all().build().unwrap();
+            let sut = match Sut::open(&engine, &dir) {
+                Ok(s) => s,
+                Err(e) => {
+                    eprintln!("open failed: {e}");
+                    return Some(2);
+                }
+            };
+            for (k, op) in ops.iter().enumerate() {
+                let _ = std::io::stderr().write_all(format!("DVMARK begin {}\n", k + 1).as_bytes());
+                let r = rt.block_on(sut.apply(op));
+                let _ = std::io::stderr().write_all(format!("DVMARK end {}\n", k + 1).as_bytes());
+                if let Err(e) = r {
+                    eprintln!("op {k} failed: {e}");
+                    return Some(2);
+                }
+            }
+            // a killed process runs no destructors
+            std::process::exit(0);
+        }
+        "load" => {
+            let max_idx = arg_u64(args, "--max-idx", 3);
+            let list = std::fs::read_to_string(arg(args, "--list").expect("--list")).expect("list");
+            let out = arg(args, "--out").expect("--out");
+            let rt = tokio::runtime::Builder::new_current_thread().enable_all().build().unwrap();
+            let mut w = std::io::BufWriter::new(std::fs::File::create(out).expect("out"));
+            for d in list.lines().filter(|l| !l.trim().is_empty()) {
+                let v = match Sut::open(&engine, Path::new(d)) {
+                    Err(e) => json!({"dir": d, "err": e}),
+                    Ok(s) => {
+                        let st = s.s().clone();
+                        let mut entry: Vec<String> = vec![];
+                        for i in 0..=(max_idx + 1) {
+                            entry.push(match rt.block_on(st.entry(i)) {
+                                Ok(Some(e)) => show_entry(&e, Some(i)),
+                                Ok(None) => "0".into(),
+                                Err(e) => format!("Err({e:?})"),
+                            });
+                        }
+                        let all = match st.get_entries(0..=u64::MAX) {
+                            Ok(es) => es.iter().map(|e| json!([e.index, show_entry(e, None)])).collect::<Vec<_>>(),
+                            Err(_) => vec![],
+                        };
+                        let r = json!({"dir": d, "err": null, "last": st.last_index(), "entry": entry, "all": all});
+                        s.close();
+                        r
+                    }
+                };
+                serde_json::to_writer(&mut w, &v).unwrap();
+                w.write_all(b"\n").unwrap();
+            }
+            w.flush().unwrap();
+            Some(0)
+        }
+        _ => None,
+    }
+}
+
 pub fn main(args: &[String]) -> i32 {
+    if let Some(rc) = script_or_load(args) {
+        return rc;
+    }
     let gpath = arg(args, "--graph").expect("--graph");
     let out = arg(args, "--out").expect("--out");
     let max_idx = arg_u64(args, "--max-idx", 3);
